@@ -13,7 +13,7 @@ from ..model_ac import ModelAC
 ID = "C05"
 LEVEL = "exploration"
 SHARDS = {"quick": 8, "thorough": 16}
-RULE = ("req: _LanProtocolV3._encode_encrypted_request(counter, payload) under a session key decoded by the independent V3 "
+RULE = ("(also: sessions of 600 / 6000 requests with scattered payload lengths encoded by one long-lived protocol object, each decoded by the reference) req: _LanProtocolV3._encode_encrypted_request(counter, payload) under a session key decoded by the independent V3 "
         "decoder (type 6, counter, payload, pad == (16-(len+2)%16)%16, size == len+pad+32, total == size+8, valid SHA-256 tag); "
         "resp: packets from the independent encoder decoded by _process_packet, directly or as they arrive on a connection (through the stream framer's data_received, whole or cut in two, then taken from the receive queue); tamper: every single-bit flip of one response "
         "per residue must make LAN._read semantics (_process_packet then _Packet.decode) raise ProtocolError; wiretamper: the same on a live connection, a response with one bit altered (outside marker and size field) followed by silence must make LAN.send raise ProtocolError, not time out; wire: LAN.send on an "
@@ -63,7 +63,7 @@ def check_case(case: dict):
         payload = bytes.fromhex(case["payload"])
         cnt = case["counter"]
         try:
-            pkt = _proto(key, case.get("shared", False))._encode_encrypted_request(cnt, payload)
+            pkt = (case["proto"] if "proto" in case else _proto(key, case.get("shared", False)))._encode_encrypted_request(cnt, payload)
         except Exception as e:
             return (f"req/raises/{type(e).__name__}", f"_encode_encrypted_request raised {e!r}")
         try:
@@ -84,6 +84,20 @@ def check_case(case: dict):
             return ("req/size", f"size field {d.size_field} != {L + want_pad + 32}")
         if d.payload != payload:
             return ("req/payload", f"decoded payload differs (len {len(d.payload)} vs {L})")
+        return None
+    if kind == "reqseq":
+        # one long-lived protocol object (a connection) encodes `n` requests whose lengths follow a scattered sequence; every
+        # one of them must decode (anything the object carries over from request to request is part of the input)
+        from msmart.lan import _LanProtocolV3
+        proto = _LanProtocolV3()
+        proto._local_key = key
+        x = case["start"]
+        for i in range(case["n"]):
+            x = (x * 1103515245 + 12345) & 0x7FFFFFFF
+            L = (x >> 8) % (case["maxlen"] + 1)
+            sub = check_case({"kind": "req", "key": case["key"], "payload": _payload(L, i).hex(), "counter": i & 0xFFF, "proto": proto})
+            if sub is not None:
+                return (sub[0], f"request #{i + 1} of the session (payload length {L}): {sub[1]}")
         return None
     if kind == "resp":
         payload = bytes.fromhex(case["payload"])
@@ -229,7 +243,7 @@ def replay(ctx, case):
 def _nt(case) -> bool:
     if case["kind"] in ("tamper", "wiretamper"):
         return True
-    if case["kind"] == "wire":
+    if case["kind"] in ("wire", "reqseq"):
         return True
     L = len(case["payload"]) // 2
     return (L + 2) % 16 == 0 or L in (0, 1) or case["counter"] in (0, 255, 256, 4095)
@@ -245,6 +259,8 @@ def _run_one(ctx, case):
         key = hash((kind, case["frame"], case["key"], case["counter"], case["bit"]))
     elif kind == "wiretamper":
         key = hash((kind, case["frame"], case["key"], case["bit"]))
+    elif kind == "reqseq":
+        key = hash((kind, case["key"], case["start"], case["n"], case["maxlen"]))
     else:
         key = hash((kind, case["frame"], case["key"], tuple(case["replies"]), tuple(case.get("cuts", []))))
     nt = _nt(case)
@@ -272,6 +288,12 @@ def run(ctx) -> None:
                 case = {"kind": "resp", "key": _key(k).hex(), "payload": _payload(L, k).hex(), "counter": (L * 37 + k * 1001) & 0xFFF, "via": "stream", "cut": cut}
                 ctx.check(case, lambda c: _run_one(ctx, c))
     ctx.sweep("payload length 0..300 x keys x {req,resp,resp through the stream framer}", n * 4, True)
+    # sessions: one protocol object, 600 (quick) / 6000 (thorough) requests with scattered lengths
+    for sidx in range(4 if ctx.quick else 16):
+        if ctx.mine(sidx):
+            case = {"kind": "reqseq", "key": _key(20 + sidx).hex(), "start": 12345 + 7919 * sidx, "n": 600 if ctx.quick else 6000, "maxlen": [300, 40, 120, 15][sidx % 4]}
+            ctx.check(case, lambda c: _run_one(ctx, c))
+    ctx.sweep("request sessions on one protocol object with scattered payload lengths", 4 if ctx.quick else 16, True)
     # payloads that merely look like a V2 packet (marker, a length field that disagrees with the real length, two packets
     # back to back): the V3 layer must deliver the payload as sent, whatever it contains
     z = 0
